@@ -63,10 +63,21 @@ impl Container {
 }
 
 /// Renders the call set; returns the bytes and the number of BGZF blocks (0 if uncompressed).
+/// VCF text of the call set with the line convention decided by the data itself: LF (three in
+/// five), CRLF, or LF without a final newline -- the records are the same.
+pub fn vcf_text(cs: &CallSet) -> String {
+    let text = cs.to_vcf();
+    match (cs.records.len() * 7 + cs.samples.len()) % 5 {
+        1 => text.replace('\n', "\r\n"),
+        2 => text.trim_end_matches('\n').to_string(),
+        _ => text,
+    }
+}
+
 pub fn render(cs: &CallSet, c: &Container) -> (Vec<u8>, usize) {
     match c {
-        Container::Vcf => (cs.to_vcf().into_bytes(), 0),
-        Container::VcfGz(l) => bgzf::compress(cs.to_vcf().as_bytes(), l),
+        Container::Vcf => (vcf_text(cs).into_bytes(), 0),
+        Container::VcfGz(l) => bgzf::compress(vcf_text(cs).as_bytes(), l),
         Container::Bcf(l) => bgzf::compress(&bcf::to_bcf(cs).0, l),
         Container::BcfRaw => (bcf::to_bcf(cs).0, 0),
     }
